@@ -140,6 +140,36 @@ func (w *World) wiringRunNamedPipe() []*Obligation {
 		}
 		obs = append(obs, structOb(fmt.Sprintf("wiring/%s:group-context", shortFn(cl)), bad == "" && n > 0, fmt.Sprintf("%d context arguments in %s, all the errgroup's context %s", n, shortFn(cl), bad)))
 	}
+	// helpers that are handed the errgroup (they start group members) must be handed the group's context as well
+	nh, badh := 0, ""
+	for _, b := range fn.Blocks {
+		for _, in := range b.Instrs {
+			c, ok := in.(*ssa.Call)
+			if !ok || c.Common().IsInvoke() {
+				continue
+			}
+			args := c.Common().Args
+			hasEg := false
+			for _, a := range args {
+				if isLoadOfVar(a, "eg") {
+					hasEg = true
+				}
+			}
+			if !hasEg || c.Common().StaticCallee() == nil {
+				continue
+			}
+			sig := c.Common().Signature()
+			for p := 0; p < sig.Params().Len() && p < len(args); p++ {
+				if isContextType(sig.Params().At(p).Type()) {
+					nh++
+					if !isLoadOfVar(args[p], "groupCtx") {
+						badh = fmt.Sprintf("%s is given the errgroup but a context other than groupCtx", c.Common().StaticCallee().Name())
+					}
+				}
+			}
+		}
+	}
+	obs = append(obs, structOb("wiring/helpers:group-context", badh == "", fmt.Sprintf("%d helper calls receive the errgroup together with a context, all the errgroup's context %s", nh, badh)))
 	// RunNamedPipe returns eg.Wait()'s error
 	waits := callsTo(fn, "(*golang.org/x/sync/errgroup.Group).Wait")
 	okWait := false
